@@ -1102,13 +1102,20 @@ def instantiate(I, state, frame, bi, tmpl, span, anonymous=False, tag=""):
                     out.append((e2, merged))
                     continue
             st.heap[root] = e
+            mt = mf = False
             for (rv, s2) in call_closure(I, st, frame, bi, tmpl[2], [ref(root, ())], span):
                 if rv[0] == "fin" and rv[1] == BOOL:
+                    mt = mt or (1,) in rv[2]
+                    mf = mf or (0,) in rv[2]
                     if (1,) not in rv[2]:
                         continue
                     if I.apply_links(s2, rv[3], 1) is False:
                         continue
+                else:
+                    mt = mf = True
                 out.append((anonymise(e) if anonymous else e, s2))
+            I.rec.put("filter_result", I.sitekey(frame, bi, -1, hash(tag) % 1000),
+                      dict(fn=frame.body.name, bb=bi, span=span, may_true=mt, may_false=mf, stack=frame.stack))
         return out
     if k == "map":
         out = []
@@ -1195,6 +1202,19 @@ def m_collect(I, state, frame, bi, t, args, span):
             elem = join(elem, e)
     I.rec.put("collect", I.sitekey(frame, bi, -1),
               dict(fn=frame.body.name, bb=bi, span=span, tags=frozenset(tags), stack=frame.stack))
+    dty = frame.body.locals[t["dest"]["l"]]["s"] if not t["dest"]["p"] else ""
+    if dty.startswith("std::collections::HashMap<") and kk is None and elem is not None and elem[0] == "adt" and elem[1] == "tuple":
+        fs = adt_variants(elem)[0]
+        if len(fs) == 2:
+            kk, elem = fs[0], fs[1]
+            filtered = False
+            x = tmpl
+            while x[0] in ("filter", "map", "filter_map", "enum"):
+                filtered = filtered or x[0] in ("filter", "filter_map")
+                x = x[1]
+            I.rec.put("map_op", I.sitekey(frame, bi, -2),
+                      dict(fn=frame.body.name, bb=bi, span=span, op="insert", target=("local", None, frozenset(tags)), key=kk, value=elem,
+                           stored_keys=None, stack=frame.stack, collected=True, filtered=filtered, **ctx(I, state)))
     return [(("coll", elem, kk, frozenset(tags)), state)]
 
 
@@ -1282,7 +1302,14 @@ def m_remove_node(I, state, frame, bi, t, args, span):
     return [(BOOL_TOP, state)]
 
 
-@model("petgraph::graphmap::GraphMap::<N, E, Ty>::add_node", "petgraph::graphmap::GraphMap::<N, E, Ty>::add_edge",
+@model("petgraph::graphmap::GraphMap::<N, E, Ty>::add_edge")
+def m_add_edge(I, state, frame, bi, t, args, span):
+    I.rec.put("add_edge", I.sitekey(frame, bi, -1),
+              dict(fn=frame.body.name, bb=bi, span=span, weight=args[3] if len(args) > 3 else None, stack=frame.stack))
+    return [(TOP, state)]
+
+
+@model("petgraph::graphmap::GraphMap::<N, E, Ty>::add_node",
        "petgraph::graphmap::GraphMap::<N, E, Ty>::new", "petgraph::algo::toposort",
        "petgraph::graphmap::GraphMap::<N, E, Ty>::contains_node", "petgraph::graphmap::GraphMap::<N, E, Ty>::contains_edge")
 def m_graph_misc(I, state, frame, bi, t, args, span):
@@ -1433,8 +1460,8 @@ def m_all_any(is_all):
                 else:
                     may_true = may_false = True
         I.rec.put("quantifier", I.sitekey(frame, bi, -1),
-                  dict(fn=frame.body.name, bb=bi, span=span, all=is_all, iter=it if it[0] == "iter" else None, closure=args[1],
-                       stack=frame.stack))
+                  dict(fn=frame.body.name, bb=bi, span=span, all=is_all, iter=it if it[0] == "iter" else None,
+                       may_true=may_true, may_false=may_false, stack=frame.stack))
         if is_all:
             vals = [True] + ([False] if may_false else [])
         else:
